@@ -1,6 +1,6 @@
 //! C06: the transactional KV overlay (private StorageTransaction + transactional(), reached
 //! through the `verif` hook wrappers) against the ordered-map spec / the cache-stack model.
-use crate::common::*;
+use common::*;
 use cosmwasm_std::{MemoryStorage, Order, Storage};
 use cw_multi_test::verif_hooks::{transactional, Cache};
 use serde::{Deserialize, Serialize};
